@@ -477,6 +477,9 @@ func Datetime(errBuf *strings.Builder, validName, objName, fieldName string, tv 
 	defaultSplit := []string{"-", " ", ":"}
 	if val != "" {
 		for i, split := range strings.Split(strings.Trim(val, "'"), ",") {
+			if i >= len(defaultSplit) { // 多余的分隔符忽略
+				break
+			}
 			defaultSplit[i] = split
 		}
 	}
